@@ -149,7 +149,8 @@ fn small_block(ctx: &Ctx) {
             _ => Sched::random(&mut rng, 16, 5),
         };
         // encrypt direction
-        let enc_io = Io::new(Sched::list(comp.clone(), 1), wsched.clone());
+        let mut enc_io = Io::new(Sched::list(comp.clone(), 1), wsched.clone());
+        enc_io.vectored = i % 2 == 1;
         let enc = |inp: &[u8], io: &Io| chunks_encrypt_run(inp, io, &key, aad, *c as u32);
         let case = || json!({"direction": "encrypt", "plaintext": hex(&pt), "chunk_size": c, "key": hex(&key), "aad": hex(aad), "io": enc_io.describe()});
         let clean = enc(&pt, &enc_io);
@@ -161,6 +162,14 @@ fn small_block(ctx: &Ctx) {
             return;
         }
         let alt = enc(&pt, &Io::new(Sched::list(comp.clone(), 1), Sched::all()));
+        // and a sink with native vectored writes that accepts odd short counts across header and body
+        let mut vio = Io::new(Sched::list(comp.clone(), 1), Sched::list(vec![5, 40, 3, 17, 1, 29, 16, 15, 2], 7));
+        vio.vectored = true;
+        let valt = enc(&pt, &vio);
+        if valt.out != clean.out || !valt.outcome.is_ok() {
+            ctx.violation("C10:small:ciphertext-bytes-depend-on-write-schedule:vectored-sink", case());
+            return;
+        }
         if alt.out != clean.out {
             ctx.violation("C10:small:ciphertext-bytes-depend-on-write-schedule", case());
             return;
@@ -204,11 +213,12 @@ fn production_block(ctx: &Ctx) {
         let keymode = i % 2 == 0;
         let mut rng = Rng::fork(ctx.seed, &format!("C10-prod-{}", i));
         let pt = rng.bytes(len);
-        let io = match (i / 2) % 3 {
+        let mut io = match (i / 2) % 3 {
             0 => Io::plain(),
             1 => Io::new(Sched::fixed(30000), Sched::fixed(50000)),
             _ => Io::new(Sched::random(&mut rng, 16, 65536), Sched::random(&mut rng, 16, 70000)),
         };
+        io.vectored = (i / 2) % 2 == 1;
         let stride = ctx.tier.pick(3, 1);
         if keymode {
             let k = fresh_keys(&mut rng);
